@@ -5,6 +5,7 @@ import (
 	"go/constant"
 	"go/types"
 	"regexp"
+	"sort"
 	"strconv"
 	"strings"
 
@@ -62,23 +63,110 @@ func (p *Prog) writersOf(pkgRel, field string) map[string][]StoreSite {
 	return out
 }
 
+// ownersOf: the functions of the allowed table on whose behalf fn writes. A write inside an
+// unexported helper is attributed to its callers (transitively) as long as every call chain
+// ends in an allowed function; an exported function or a function nobody calls must be allowed itself.
+func (p *Prog) ownersOf(fn *ssa.Function, allowed func(key string) bool) (owners []string, offender string) {
+	cg := p.CG()
+	seen := map[*ssa.Function]bool{}
+	own := map[string]bool{}
+	var walk func(f *ssa.Function) string
+	walk = func(f *ssa.Function) string {
+		root := rootOf(f)
+		key := FuncKey(root)
+		if allowed(key) {
+			own[key] = true
+			return ""
+		}
+		if seen[root] {
+			return ""
+		}
+		seen[root] = true
+		exported := root.Object() != nil && root.Object().Exported()
+		callers := cg.Callers(root)
+		// callers that are the function's own closures do not count
+		var real []*ssa.Function
+		for _, cl := range callers {
+			if rootOf(cl) != root {
+				real = append(real, cl)
+			}
+		}
+		if exported || len(real) == 0 {
+			return key
+		}
+		for _, cl := range real {
+			if off := walk(cl); off != "" {
+				return off
+			}
+		}
+		return ""
+	}
+	off := walk(fn)
+	for k := range own {
+		owners = append(owners, k)
+	}
+	sort.Strings(owners)
+	return owners, off
+}
+
 // checkWriters compares the writers of a collection with the allowed set (function key → allowed methods).
 func (c *Check) checkWriters(rule, pkgRel, field string, allowed map[string]string, floor int) {
 	p := c.p
-	got := p.writersOf(pkgRel, field)
 	n := 0
-	for fn, sites := range got {
-		for _, s := range sites {
+	ownersSeen := map[string]bool{}
+	for _, f := range p.ProdFuncs {
+		for _, s := range p.StoreSites(f) {
+			if !s.IsWrite() || s.Field.Name() != field || s.Field.Pkg() == nil || relPkg(s.Field.Pkg().Path()) != pkgRel {
+				continue
+			}
 			n++
 			c.Counters["call_sites"]++
-			if ms, ok := allowed[fn]; ok && strings.Contains(","+ms+",", ","+s.Method+",") {
-				c.Held(rule, field+"-writer "+fn, p.InstrPos(s.Call), field+"."+s.Method)
-			} else {
-				c.Violated(rule, field+"-writer "+fn, p.InstrPos(s.Call), "unexpected writer: "+pkgRel+" "+field+"."+s.Method+" in "+fn)
+			fn := FuncKey(rootOf(f))
+			owners, off := p.ownersOf(f, func(k string) bool {
+				ms, ok := allowed[k]
+				return ok && strings.Contains(","+ms+",", ","+s.Method+",")
+			})
+			if off != "" {
+				c.Violated(rule, field+"-writer "+off, p.InstrPos(s.Call), "unexpected writer: "+pkgRel+" "+field+"."+s.Method+" in "+fn+" (reached from "+off+")")
+				continue
 			}
+			for _, o := range owners {
+				ownersSeen[o] = true
+			}
+			via := ""
+			if len(owners) != 1 || owners[0] != fn {
+				via = " (helper " + fn + ")"
+			}
+			c.Held(rule, field+"-writer "+strings.Join(owners, "+")+via, p.InstrPos(s.Call), field+"."+s.Method)
 		}
 	}
-	c.Floor(rule, field+" writers", n, floor)
+	if floor > len(allowed) {
+		floor = len(allowed)
+	}
+	c.Floor(rule, field+" writers (distinct allowed owners)", len(ownersSeen), min(floor, len(allowed)))
+	_ = n
+}
+
+// checkFieldWriters: stores to field F of struct T happen only on behalf of the allowed functions.
+func (c *Check) checkFieldWriters(rule string, structT *types.Named, field, what string, allowed map[string]bool, floor int) {
+	p := c.p
+	ownersSeen := map[string]bool{}
+	for _, fs := range p.FieldStores(structT, field) {
+		k := FuncKey(rootOf(fs.Fn))
+		if strings.HasPrefix(k, "cmd/") {
+			continue
+		}
+		owners, off := p.ownersOf(fs.Fn, func(key string) bool { return allowed[key] })
+		if off != "" {
+			c.Violated(rule, what+"-writer "+off, p.InstrPos(fs.Store), what+" written outside the allowed functions (in "+k+", reached from "+off+")")
+			continue
+		}
+		for _, o := range owners {
+			ownersSeen[o] = true
+		}
+		c.Held(rule, what+"-writer "+strings.Join(owners, "+"), p.InstrPos(fs.Store), "")
+	}
+	c.Floor(rule, what+" writers (distinct allowed owners)", len(ownersSeen), floor)
 }
 
 const txidExpr = "crypto.DoubleSHA256Sum($3.NoWitnessTx)"
@@ -174,42 +262,39 @@ func propC03(c *Check) {
 			c.Violated("R5", "receipt."+f+" @ "+FuncKey(vd), p.Pos(vd.Pos()), "receipt field is "+got[f]+", expected "+want[f]+" reason=not-established")
 		}
 	}
-	// tax applied only under rate > 0 && value > 10000; cap only under MaxDepositTax > 0 && tax > cap
-	var subInstr, capUse []ssa.Instruction
-	for _, b := range vd.Blocks {
-		for _, in := range b.Instrs {
-			if bo, ok := in.(*ssa.BinOp); ok && r.E(bo) == "("+val+" - "+taxInner+")" {
-				subInstr = append(subInstr, in)
-			}
-		}
-	}
-	if len(subInstr) == 0 {
-		c.Violated("R5", "tax-subtraction @ "+FuncKey(vd), p.Pos(vd.Pos()), "value - tax not found reason=not-established")
-	} else {
-		c.RequireFact(vd, "R5", "tax-needs-rate>0", patPositive("Params.Get()#0.DepositTaxRate"), instrSet(subInstr), "tax subtraction")
-		c.RequireFact(vd, "R5", "tax-needs-value>10000", lit("(10000 < "+val+")"), instrSet(subInstr), "tax subtraction")
-	}
-	_ = capUse
-	// the cap replaces the tax only on the edge MaxDepositTax > 0 && MaxDepositTax < tax: find the φ and its incoming block for the cap value
-	capOK := false
-	for _, b := range vd.Blocks {
-		for _, in := range b.Instrs {
-			ph, ok := in.(*ssa.Phi)
-			if !ok || r.E(ph) != taxInner {
-				continue
-			}
-			for i, e := range ph.Edges {
-				if r.E(e) != "Params.Get()#0.MaxDepositTax" {
-					continue
+	// tax applied only when value > 10000; the cap replaces the tax only under MaxDepositTax > 0 && tax > cap.
+	// The arithmetic may live in VerifyDeposit or in a private helper it calls (seen in the caller's terms).
+	taxCalc := "((" + val + " / 10000) * Params.Get()#0.DepositTaxRate)"
+	foundSub, capOK := false, false
+	for _, x := range p.helperContexts(vd) {
+		for _, b := range x.fn.Blocks {
+			for _, in := range b.Instrs {
+				switch v := in.(type) {
+				case *ssa.BinOp:
+					if x.r.E(v) == "("+val+" - "+taxInner+")" {
+						foundSub = true
+						c.requireFactCtx(x, "R5", "tax-needs-value>10000", lit("(10000 < "+val+")"), instrSet([]ssa.Instruction{in}), "tax subtraction")
+					}
+				case *ssa.Phi:
+					if x.r.E(v) != taxInner {
+						continue
+					}
+					for i, e := range v.Edges {
+						if x.r.E(e) != "Params.Get()#0.MaxDepositTax" {
+							continue
+						}
+						pred := b.Preds[i]
+						t := pred.Instrs[len(pred.Instrs)-1]
+						ok1 := c.requireFactCtx(x, "R5", "cap-needs-cap>0", patPositive("Params.Get()#0.MaxDepositTax"), instrSet([]ssa.Instruction{t}), "cap application")
+						ok2 := c.requireFactCtx(x, "R5", "cap-needs-tax>cap", lit("(Params.Get()#0.MaxDepositTax < "+taxCalc+")"), instrSet([]ssa.Instruction{t}), "cap application")
+						capOK = ok1 && ok2
+					}
 				}
-				pred := b.Preds[i]
-				// every path to pred must establish both cap facts
-				t := pred.Instrs[len(pred.Instrs)-1]
-				ok1 := c.RequireFact(vd, "R5", "cap-needs-cap>0", patPositive("Params.Get()#0.MaxDepositTax"), instrSet([]ssa.Instruction{t}), "cap application")
-				ok2 := c.RequireFact(vd, "R5", "cap-needs-tax>cap", lit("(Params.Get()#0.MaxDepositTax < (("+val+" / 10000) * Params.Get()#0.DepositTaxRate))"), instrSet([]ssa.Instruction{t}), "cap application")
-				capOK = ok1 && ok2
 			}
 		}
+	}
+	if !foundSub {
+		c.Violated("R5", "tax-subtraction @ "+FuncKey(vd), p.Pos(vd.Pos()), "value - tax not found reason=not-established")
 	}
 	if !capOK {
 		c.Violated("R5", "cap-shape @ "+FuncKey(vd), p.Pos(vd.Pos()), "min(cap, tax) selection not established reason=not-established")
@@ -315,55 +400,145 @@ func propC04(c *Check) {
 	cur := `φ\{\$0\|crypto\.DoubleSHA256Sum\((BUF)\)\}`
 	_ = cur
 	// find the parity branch
-	var evenB, oddB *ssa.BasicBlock
+	var evenB, oddB, brB *ssa.BasicBlock
 	for _, ef := range p.EdgeFacts(vm) {
 		switch ef.Fact {
 		case "((1 & " + idx + ") == 0)":
-			evenB = ef.Block.Succs[ef.Idx]
+			evenB, brB = ef.Block.Succs[ef.Idx], ef.Block
 		case "((1 & " + idx + ") != 0)":
 			oddB = ef.Block.Succs[ef.Idx]
 		}
 	}
-	if evenB == nil || oddB == nil {
+	if evenB == nil || oddB == nil || evenB == oddB {
 		c.Violated("R2", "parity-branch @ "+FuncKey(vm), p.Pos(vm.Pos()), "no branch on (position & 1) with position shifted right per iteration reason=not-established")
 	} else {
 		c.Held("R2", "parity-branch @ "+FuncKey(vm), p.InstrPos(evenB.Instrs[0]), "branch on (1 & "+idx+")")
-		reCopy := regexp.MustCompile(`^copy\((.*)\[(:32|32:)\], (.*)\)$`)
-		sibRe := regexp.MustCompile(`^\$2\[\(32 \* φ\{\(1 \+ @\)\|0\}\):\(\(32 \* φ\{\(1 \+ @\)\|0\}\) \+ 32\)\]$`)
-		check := func(b *ssa.BasicBlock, name string, wantFirstIsCur bool) {
-			var lo, hi, buf, hashArg string
+		// parity of a block / of a φ edge: decided by which side of the parity branch it lies on
+		const (
+			parUnknown = iota
+			parEven
+			parOdd
+		)
+		parityOfBlock := func(b *ssa.BasicBlock) int {
+			if len(evenB.Preds) == 1 && evenB.Dominates(b) {
+				return parEven
+			}
+			if len(oddB.Preds) == 1 && oddB.Dominates(b) {
+				return parOdd
+			}
+			return parUnknown
+		}
+		parityOfEdge := func(pred, blk *ssa.BasicBlock) int {
+			if pred == brB {
+				if blk == evenB {
+					return parEven
+				}
+				if blk == oddB {
+					return parOdd
+				}
+			}
+			return parityOfBlock(pred)
+		}
+		// resolve v (possibly a φ merging the two sides) to its value on the given side
+		resolve := func(v ssa.Value, par int) (string, bool) {
+			if ph, ok := v.(*ssa.Phi); ok && parityOfBlock(ph.Block()) == parUnknown && len(ph.Edges) >= 2 && ph.Block() != brB && !brB.Dominates(ph.Block()) == false {
+				var got []string
+				for k, e := range ph.Edges {
+					pe := parityOfEdge(ph.Block().Preds[k], ph.Block())
+					if pe == parUnknown {
+						return r.E(v), true // not a parity merge: keep as is
+					}
+					if pe == par {
+						got = append(got, r.E(e))
+					}
+				}
+				if len(got) == 0 {
+					return "", false
+				}
+				for _, g := range got[1:] {
+					if g != got[0] {
+						return "", false
+					}
+				}
+				return got[0], true
+			}
+			return r.E(v), true
+		}
+		sibRe := regexp.MustCompile(`^\$2\[\(32 \* φ\{\(1 \+ @\)\|0\}\):(\(\(32 \* φ\{\(1 \+ @\)\|0\}\) \+ 32\)|\(\(1 \+ φ\{\(1 \+ @\)\|0\}\) \* 32\))\]$`)
+		// the hash sites: copy(buf[:32], lo); copy(buf[32:], hi); DoubleSHA256Sum(buf) in one block
+		type hashSite struct {
+			b          *ssa.BasicBlock
+			lo, hi     ssa.Value
+			buf, hashA string
+		}
+		var sites []hashSite
+		reDst := regexp.MustCompile(`^(.*)\[(:32|32:)\]$`)
+		for _, b := range vm.Blocks {
+			var hs hashSite
+			hs.b = b
 			for _, in := range b.Instrs {
-				ci, ok := in.(ssa.CallInstruction)
+				ci, ok := in.(*ssa.Call)
 				if !ok {
 					continue
 				}
-				s := p.CallStr(ci)
-				if m := reCopy.FindStringSubmatch(s); m != nil {
-					buf = m[1]
-					if m[2] == ":32" {
-						lo = m[3]
-					} else {
-						hi = m[3]
+				if bi, isB := ci.Call.Value.(*ssa.Builtin); isB && bi.Name() == "copy" {
+					if m := reDst.FindStringSubmatch(r.E(ci.Call.Args[0])); m != nil {
+						hs.buf = m[1]
+						if m[2] == ":32" {
+							hs.lo = ci.Call.Args[1]
+						} else {
+							hs.hi = ci.Call.Args[1]
+						}
 					}
+					continue
 				}
-				if strings.HasPrefix(s, "crypto.DoubleSHA256Sum(") {
-					hashArg = strings.TrimSuffix(strings.TrimPrefix(s, "crypto.DoubleSHA256Sum("), ")")
+				if s := p.CallStr(ci); strings.HasPrefix(s, "crypto.DoubleSHA256Sum(") {
+					hs.hashA = strings.TrimSuffix(strings.TrimPrefix(s, "crypto.DoubleSHA256Sum("), ")")
+					sites = append(sites, hs)
+					hs = hashSite{b: b}
 				}
-			}
-			curS, sibS := lo, hi
-			if !wantFirstIsCur {
-				curS, sibS = hi, lo
-			}
-			okCur := strings.HasPrefix(curS, "φ{$0|crypto.DoubleSHA256Sum(")
-			okSib := sibRe.MatchString(sibS)
-			if okCur && okSib && hashArg == buf && buf != "" {
-				c.Held("R2", name+" @ "+FuncKey(vm), p.InstrPos(b.Instrs[0]), "buf[:32]="+lo+" buf[32:]="+hi+" node=DoubleSHA256(buf)")
-			} else {
-				c.Violated("R2", name+" @ "+FuncKey(vm), p.InstrPos(b.Instrs[0]), "concatenation order/hash not as required: buf[:32]="+lo+" buf[32:]="+hi+" hash("+hashArg+")")
 			}
 		}
-		check(evenB, "even:current‖sibling", true)
-		check(oddB, "odd:sibling‖current", false)
+		check := func(par int, name string, wantFirstIsCur bool) {
+			n := 0
+			for _, hs := range sites {
+				pb := parityOfBlock(hs.b)
+				if pb != parUnknown && pb != par {
+					continue
+				}
+				n++
+				lo, hi := "", ""
+				ok1, ok2 := false, false
+				if hs.lo != nil {
+					lo, ok1 = resolve(hs.lo, par)
+				}
+				if hs.hi != nil {
+					hi, ok2 = resolve(hs.hi, par)
+				}
+				curS, sibS := lo, hi
+				if !wantFirstIsCur {
+					curS, sibS = hi, lo
+				}
+				okCur := strings.HasPrefix(curS, "φ{$0|crypto.DoubleSHA256Sum(")
+				okSib := sibRe.MatchString(sibS)
+				if ok1 && ok2 && okCur && okSib && hs.hashA == hs.buf && hs.buf != "" {
+					c.Held("R2", name+" @ "+FuncKey(vm), p.InstrPos(hs.b.Instrs[0]), "buf[:32]="+lo+" buf[32:]="+hi+" node=DoubleSHA256(buf)")
+				} else {
+					c.Violated("R2", name+" @ "+FuncKey(vm), p.InstrPos(hs.b.Instrs[0]), "concatenation order/hash not as required: buf[:32]="+lo+" buf[32:]="+hi+" hash("+hs.hashA+")")
+				}
+			}
+			if n == 0 {
+				c.Violated("R2", name+" @ "+FuncKey(vm), p.Pos(vm.Pos()), "no copy/copy/DoubleSHA256Sum site on this side of the parity branch reason=not-established")
+			}
+		}
+		check(parEven, "even:current‖sibling", true)
+		check(parOdd, "odd:sibling‖current", false)
+		// every iteration hashes: the loop-carried node is exactly the hash result
+		if cs, okLeaves := curPhiString(p, vm); okLeaves {
+			c.Held("R2", "node-carried @ "+FuncKey(vm), p.Pos(vm.Pos()), "current = "+cs)
+		} else {
+			c.Violated("R2", "node-carried @ "+FuncKey(vm), p.Pos(vm.Pos()), "the node carried to the next level is not the hash on every path: "+cs+" reason=not-established")
+		}
 	}
 	// the buffer is 64 bytes and the loop runs len(proof)/32 times
 	loopOK := false
@@ -515,13 +690,13 @@ func propC20(c *Check) {
 	vd := p.MustFn("x/bitcoin/keeper.Keeper.VerifyDeposit")
 	c.touch(vd)
 	found := false
-	r := p.R(vd)
-	for _, b := range vd.Blocks {
-		for _, in := range b.Instrs {
-			if bo, ok := in.(*ssa.BinOp); ok {
-				s := r.E(bo)
-				if s == fmt.Sprintf("((%s.Value / %d) * Params.Get()#0.DepositTaxRate)", txOutExpr, maxBP) {
-					found = true
+	for _, x := range p.helperContexts(vd) {
+		for _, b := range x.fn.Blocks {
+			for _, in := range b.Instrs {
+				if bo, ok := in.(*ssa.BinOp); ok {
+					if x.r.E(bo) == fmt.Sprintf("((%s.Value / %d) * Params.Get()#0.DepositTaxRate)", txOutExpr, maxBP) {
+						found = true
+					}
 				}
 			}
 		}
@@ -532,4 +707,48 @@ func propC20(c *Check) {
 		c.Violated("R2", "tax = value/MaxTaxBP*rate @ "+FuncKey(vd), p.Pos(vd.Pos()), "tax formula (value / MaxTaxBP) * rate not found reason=not-established")
 	}
 	c.RequireFact(vd, "R2", "min-amount-enforced", `^\(Params\.Get\(\)#0\.MinDepositAmount <=? `+regexp.QuoteMeta(txOutExpr)+`\.Value\)$`, nil, "")
+}
+
+// curPhiString renders the loop-carried node of VerifyMerkelProof (the first argument of the
+// bytes.Equal in its result) and reports whether every leaf of that φ is the txid parameter or a
+// DoubleSHA256Sum result (so no path through an iteration carries the node over unhashed).
+func curPhiString(p *Prog, vm *ssa.Function) (string, bool) {
+	r := p.R(vm)
+	for _, b := range vm.Blocks {
+		for _, in := range b.Instrs {
+			if ci, ok := in.(*ssa.Call); ok {
+				if f := ci.Call.StaticCallee(); f != nil && f.Pkg != nil && f.Pkg.Pkg.Path() == "bytes" && f.Name() == "Equal" {
+					seen := map[ssa.Value]bool{}
+					hashes := 0
+					var walk func(v ssa.Value) bool
+					walk = func(v ssa.Value) bool {
+						if seen[v] {
+							return true
+						}
+						seen[v] = true
+						switch x := v.(type) {
+						case *ssa.Phi:
+							for _, e := range x.Edges {
+								if !walk(e) {
+									return false
+								}
+							}
+							return true
+						case *ssa.Parameter:
+							return x == vm.Params[0]
+						case *ssa.Call:
+							if g := x.Call.StaticCallee(); g != nil && g.Name() == "DoubleSHA256Sum" {
+								hashes++
+								return true
+							}
+						}
+						return false
+					}
+					ok := walk(ci.Call.Args[0])
+					return r.E(ci.Call.Args[0]), ok && hashes > 0
+				}
+			}
+		}
+	}
+	return "", false
 }
